@@ -473,9 +473,25 @@ def overview_cases(draw):
     has_prev = draw(st.sampled_from([True, True, True, False]))
     prev = None
     if has_prev:
-        mode = draw(st.sampled_from(["fresh", "same", "tweak"]))
+        mode = draw(st.sampled_from(["fresh", "same", "tweak", "shift", "shift"]))
         if mode == "same":
             prev = [dict(f) for f in cur if f["language"] in shared] + draw(file_lists(only_prev, "p"))
+        elif mode == "shift":
+            # lines moved between two functions of a file: files, functions and lines of code stay the same, only the
+            # hard-to-maintain / unmaintainable counters (may) change
+            prev = []
+            for f in cur:
+                if f["language"] in shared:
+                    ls = list(f["lengths"])
+                    if len(ls) >= 2:
+                        i = draw(st.integers(0, len(ls) - 1))
+                        j = draw(st.integers(0, len(ls) - 1))
+                        k = draw(st.sampled_from([1, 1, 2, 31]))
+                        if i != j and ls[i] > k:
+                            ls[i] -= k
+                            ls[j] += k
+                    prev.append(dict(f, lengths=ls))
+            prev += draw(file_lists(only_prev, "p"))
         elif mode == "tweak":
             prev = []
             for f in cur:
